@@ -7,6 +7,9 @@ from . import source
 from .engine import V, Outcome, Unsupported, const_to_term, Ctx, NS
 
 
+Int_ = S.Int
+
+
 def val(st, v):
     return [Outcome('value', st, v)]
 
@@ -334,6 +337,23 @@ def builtin_len(ex, v, st, desc):
         mc = ex.find_method_contract(ty.cls, '__len__')
         if mc is not None:
             return ex.call_contract(mc, [v], {}, st, desc)
+    if k == 'opaque':
+        fn = ex.reg.extern_methods.get((ty.name, '__len__'))
+        if fn is not None:
+            ex.used_trusted.add(fn.trusted_name)
+            return fn(ex, st, None, V(v.t, ty), [], {})
+    if k == 'any':
+        t = v.t
+        a = S.addr(t)
+        is_cls = lambda n: z3.And(S.is_ref(t), S.tyof(a) == S.type_id(n))
+        ex.safety(st, 'TypeError', 'len() ' + desc, z3.Or(S.is_str(t), S.is_tup(t), is_cls('list'), is_cls('dict'), is_cls('set')))
+        card = z3.Function('card', z3.ArraySort(S.PyObj(), z3.BoolSort()), z3.IntSort())
+        dom = st.sel('dom', a)
+        x = z3.Const('cx', S.PyObj())
+        st.assume(card(dom) >= 0)
+        st.assume((card(dom) == 0) == z3.Not(z3.Exists([x], z3.Select(dom, x))))
+        return V(S.mk_int(z3.If(S.is_str(t), z3.Length(S.sval(t)), z3.If(S.is_tup(t), z3.Length(S.items(t)),
+                          z3.If(is_cls('list'), z3.Length(st.sel('list', a)), card(dom))))), Int_)
     raise Unsupported(f'len of {ty}: {desc}')
 
 
@@ -479,6 +499,13 @@ def dict_method(ex, st, recv, ty, a, meth, args, kwargs, desc):
         st.set_field('val', z3.Store(valf, a, z3.Store(v, k.t, t)))
         st.assume(S.has_type(t, ty.v, st.next_ref))
         return V(t, ty.v)
+    if meth in ('keys', 'values') and not args:
+        r = ex.alloc(st, 'list')
+        seq = enum_of_dom(ex, recv, st)
+        if meth == 'values':
+            raise Unsupported('dict.values() as a value')
+        st.set_field('list', z3.Store(st.field('list'), S.addr(r), seq))
+        return V(r, S.List(ty.k))
     if meth == 'copy' and not args:
         r = ex.alloc(st, 'dict')
         st.set_field('dom', z3.Store(st.field('dom'), S.addr(r), d))
